@@ -101,7 +101,14 @@ func (t *tracer) idxList(k int) []int {
 func (t *tracer) someFreq() uint32 {
 	r := t.g.r
 	ups := chanobs.Uplinks(t.shadow)
-	if len(ups) > 0 && r.Intn(4) != 0 {
+	if len(ups) > 0 {
+		switch r.Intn(4) {
+		case 0:
+			return chanobs.RandFreq(r, ups)
+		case 1: // a unit-conversion neighbour of a stored frequency
+			nb := neighbours(ups[r.Intn(len(ups))].Freq)
+			return nb[r.Intn(len(nb))]
+		}
 		return ups[r.Intn(len(ups))].Freq
 	}
 	return chanobs.RandFreq(r, ups)
